@@ -2,6 +2,7 @@ import Driver.Common
 import Parsley.Model.Filters
 import Parsley.Spec.Filters
 import Parsley.Spec.DeflateFixed
+import Parsley.Spec.DeflateDyn
 import Parsley.Spec.Predictor
 import Parsley.Model.Loader
 /-!
@@ -24,7 +25,12 @@ import Parsley.Model.Loader
            F modes: 0 stored blocks (partition by seed), 1 one final fixed-Huffman block of literals
            (FiltersSpec.zlibFixedLiterals), 2 / 3 fixed-Huffman blocks from an LZ77 factorisation chosen by
            the seed (DeflateFixed.factorise: candidate distances, match cap, length-258 spelling, forced
-           literals, tokens per block), closed by an empty final block (2) or with the last block final (3)
+           literals, tokens per block), closed by an empty final block (2) or with the last block final (3),
+           4 a stream of DYNAMIC-Huffman, fixed-Huffman and stored blocks written by Spec/DeflateDyn.lean
+           (`dynPlan seed`: the same factorisations; per block a header by `DeflateDyn.mkHdr` - balanced /
+           longest possible (15- and 7-bit) / irregular codes, HLIT / HDIST / HCLEN minimal or maximal,
+           alphabets with every symbol coded, single-code and empty distance alphabets, run-length
+           spellings literal / irregular / longest runs - block types in five patterns, empty blocks)
   Only <dictser> and <contenthex> reach the implementation and the model.  The judge rebuilds
   dictionary and content from the recipe with the *spec-side* encoders, checks that they are
   what the case carries, and derives the expected outcome from the recipe alone.
@@ -276,9 +282,8 @@ def Layer.flate (l : Layer) : Layer := if l.kind == 'P' then { l with kind := 'F
 /-- the fixed-Huffman factorisation a seed stands for: greedy matches over a list of candidate
     distances (all distance symbols with and without extra bits are reachable), capped match length,
     either spelling of length 258, literals forced at some positions, `k` tokens per block -/
-def fixedBlocks (seed : Nat) (x : Bytes) : List (List DeflateFixed.Tok) :=
+def lzToks (seed : Nat) (x : Bytes) : List DeflateFixed.Tok :=
   let caps : Array Nat := #[258, 3, 4, 10, 11, 12, 257, 258]
-  let ks : Array Nat := #[1, 2, 3, 7, 50, 1000, 100000]
   let pool : List Nat :=
     [6, 8, 9, 12, 13, 16, 17, 24, 25, 32, 33, 49, 64, 65, 96, 97, 100, 128, 129, 192, 193, 255,
      256, 257, 258, 384, 385, 512, 513, 768, 769, 1000, 1024, 1025, 1536, 1537, 2048, 2049, 3072, 3073, 4096, 4097,
@@ -287,9 +292,37 @@ def fixedBlocks (seed : Nat) (x : Bytes) : List (List DeflateFixed.Tok) :=
   let cands : List Nat := [1, 2, 3, 4, 5, 7, 48, 300, 5000, 24577, 32768] ++
     ((pool.zip (List.range pool.length)).filter fun (_, i) => (i + seed) % 4 == 0).map (·.1)
   let cands := if seed % 4 == 3 then cands.reverse else cands
-  let toks := DeflateFixed.factorise cands (caps[seed % 8]?.getD 258) (seed % 2 == 1)
+  DeflateFixed.factorise cands (caps[seed % 8]?.getD 258) (seed % 2 == 1)
     (fun i => seed % 3 == 0 && (i * 7 + seed) % 5 == 0) x
-  DeflateFixed.chunk (ks[seed % 7]?.getD 50) toks
+
+def fixedBlocks (seed : Nat) (x : Bytes) : List (List DeflateFixed.Tok) :=
+  let ks : Array Nat := #[1, 2, 3, 7, 50, 1000, 100000]
+  DeflateFixed.chunk (ks[seed % 7]?.getD 50) (lzToks seed x)
+
+/-- the plan of blocks of all three types a seed stands for (F mode 4): the factorisation of `lzToks`, cut into at
+    most 40 blocks; the type of block `i` by one of five patterns (all dynamic; dynamic / fixed; stored / dynamic /
+    fixed; all dynamic with a different header style per block; stored / dynamic / dynamic / fixed), a stored block
+    carrying the bytes its tokens stand for; one seed in six closes the stream with an EMPTY final block of one
+    of the three types (a dynamic block with only the end-of-block symbol: a single code of length 1) -/
+def dynPlan (seed : Nat) (x : Bytes) : List DeflateDyn.Block × DeflateDyn.Block :=
+  let style := (seed * 37 + seed / 7) % 108
+  let toks := lzToks seed x
+  let ks : Array Nat := #[1, 2, 3, 7, 50, 1000, 100000]
+  let k := max (ks[seed % 7]?.getD 50) (toks.length / 40 + 1)
+  let chunks := DeflateFixed.chunk k toks
+  let pat := seed % 5
+  let mk (i off : Nat) (t : List DeflateFixed.Tok) : DeflateDyn.Block :=
+    let ty : Nat := match pat with      -- 0 dynamic, 1 fixed, 2 stored
+      | 0 => 0 | 1 => i % 2 | 2 => (i + 2) % 3 | 3 => 0 | _ => ([2, 0, 0, 1] : List Nat)[i % 4]?.getD 0
+    let n := DeflateDyn.spanLen t
+    if ty == 2 && n ≤ 65535 then .stored ((x.drop off).take n)
+    else if ty == 1 then .fixed t
+    else .dyn (DeflateDyn.mkHdr t (if pat == 3 then style + 5 * i else style)) t
+  let blocks := (chunks.foldl (fun (acc : List DeflateDyn.Block × Nat × Nat) t =>
+    (mk acc.2.1 acc.2.2 t :: acc.1, acc.2.1 + 1, acc.2.2 + DeflateDyn.spanLen t)) ([], 0, 0)).1.reverse
+  let empty : DeflateDyn.Block := match seed / 6 % 3 with
+    | 0 => .dyn (DeflateDyn.mkHdr [] style) [] | 1 => .fixed [] | _ => .stored []
+  if seed % 6 == 5 || blocks.isEmpty then (blocks, empty) else (blocks.dropLast, blocks.getLast?.getD empty)
 
 /-- spec-side encoding of one layer (H, A, F) -/
 def Layer.encodeBase (l : Layer) (x : Bytes) : Bytes :=
@@ -306,6 +339,9 @@ def Layer.encodeBase (l : Layer) (x : Bytes) : Bytes :=
     else if l.a == 3 then
       let bs := fixedBlocks l.b x
       DeflateFixed.zlibFixedF bs.dropLast (bs.getLast?.getD []) x
+    else if l.a == 4 then
+      let (bs, last) := dynPlan l.b x
+      DeflateDyn.zlibBlocks bs last x
     else
       let sizes : List Nat :=
         if l.b == 0 then [] else
@@ -418,6 +454,12 @@ def Recipe.build (r : Recipe) : Bytes × Bool × List Obj :=
         let ok := ok && ((DeflateFixed.resolveBlocksA bs #[]).map Array.toList == some inner)
         let e := if l.a == 2 then DeflateFixed.zlibFixed bs inner
                  else DeflateFixed.zlibFixedF bs.dropLast (bs.getLast?.getD []) inner
+        (if idx == r.corrL then corrupt l r.corrOp r.corrArg e else e, ok, parm :: ps)
+      else if l.kind == 'F' && l.a == 4 then
+        -- the hypothesis of `inflate_dynamic_roundtrip`, evaluated (planOkB_sound)
+        let (bs, last) := dynPlan l.b inner
+        let ok := ok && DeflateDyn.planOkB bs last inner
+        let e := DeflateDyn.zlibBlocks bs last inner
         (if idx == r.corrL then corrupt l r.corrOp r.corrArg e else e, ok, parm :: ps)
       else
         let e := l.encodeBase inner
@@ -607,7 +649,7 @@ def randLayer (r : Rng) (allowU : Bool) : Layer × Rng :=
   let (a, r) := r.nat 50
   let (b, r) := r.nat 3
   let (c, r) := r.nat 2
-  let (m, r) := r.nat 4
+  let (m, r) := r.nat 5
   if k < 3 then (⟨'H', a, b, c, 0⟩, r)
   else if k < 6 then (⟨'A', a, b, 0, 0⟩, r)
   else if k < 9 then (⟨'F', m, a, 0, 0⟩, r)
@@ -625,7 +667,7 @@ def gen (seed n : Nat) (tier : String) (emit : String → IO Unit) : IO Unit := 
   let thorough := tier == "thorough"
   -- 1. exhaustive small: every chain of length ≤ 2 (3 in thorough) over {H,A,F} x boundary payload lengths x shapes
   let kinds : List Layer := [⟨'H', 3, 2, 1, 0⟩, ⟨'A', 5, 2, 0, 0⟩, ⟨'F', 0, 3, 0, 0⟩, ⟨'F', 1, 0, 0, 0⟩,
-                             ⟨'F', 2, 9, 0, 0⟩, ⟨'F', 3, 4, 0, 0⟩]
+                             ⟨'F', 2, 9, 0, 0⟩, ⟨'F', 3, 4, 0, 0⟩, ⟨'F', 4, 16, 0, 0⟩]
   let chains1 := kinds.map fun k => [k]
   let chains2 := kinds.flatMap fun k => kinds.map fun k2 => [k, k2]
   let chains3 := if thorough then chains2.flatMap fun c => kinds.map fun k => k :: c else
@@ -673,7 +715,7 @@ def gen (seed n : Nat) (tier : String) (emit : String → IO Unit) : IO Unit := 
           let (p, r3) := mkPayload r2 len pi
           r := r3
           let mask := match maskSel with | 0 => 0 | 1 => 15 | 2 => 4 | _ => rm
-          let l : Layer := ⟨'P', pi % 4, pi % 50, pr + 16 * g + 256 * wsel, mask⟩
+          let l : Layer := ⟨'P', pi % 5, pi % 50, pr + 16 * g + 256 * wsel, mask⟩
           let (ch, shape) : List Layer × Nat := match pi % 4 with
             | 0 => ([l], 0) | 1 => ([l], 2) | 2 => ([kinds[0]!, l], 2) | _ => ([l, kinds[1]!, kinds[2]!], 2)
           emit (caseOf "rt" { shape := shape * 3 + pi % 3, chain := ch, eol := pi % 4, payload := p })
@@ -698,7 +740,7 @@ def gen (seed n : Nat) (tier : String) (emit : String → IO Unit) : IO Unit := 
         let (outer, r5) := randChain r4 (variant % 3) false
         let (inner, r6) := randChain r5 (variant % 2) false
         r := r6
-        let l : Layer := ⟨k, if k == 'F' then variant % 4 else a, if k == 'F' then variant else variant % 3, 0, 0⟩
+        let l : Layer := ⟨k, if k == 'F' then variant % 5 else a, if k == 'F' then variant else variant % 3, 0, 0⟩
         emit (caseOf "mal" { shape := 3 + variant % 3, chain := outer ++ [l] ++ inner, corrL := outer.length + 1,
                              corrOp := op, corrArg := arg, payload := p })
   -- 3b. `z` everywhere in an ASCII85 text: after k = 0..4 digits of the first / middle / last group and directly
@@ -740,7 +782,8 @@ def gen (seed n : Nat) (tier : String) (emit : String → IO Unit) : IO Unit := 
   let big : List Nat := if thorough then [32767, 32768, 32769, 65535, 65536, 100000, 200000, 1048576, 3000000]
                         else [32767, 32768, 32769, 65535, 65536, 100000]
   for sz in big do
-    for ch in [[kinds[2]!], [⟨'F', 0, 0, 0, 0⟩], [kinds[3]!], [⟨'F', 2, sz % 50, 0, 0⟩], [⟨'F', 3, sz % 47, 0, 0⟩]] do
+    for ch in [[kinds[2]!], [⟨'F', 0, 0, 0, 0⟩], [kinds[3]!], [⟨'F', 2, sz % 50, 0, 0⟩], [⟨'F', 3, sz % 47, 0, 0⟩],
+               [⟨'F', 4, sz % 53, 0, 0⟩]] do
       if sz ≤ 200000 || ch.head!.a == 0 then
         let (p, r1) := mkPayload r sz sz
         r := r1
@@ -760,6 +803,30 @@ def gen (seed n : Nat) (tier : String) (emit : String → IO Unit) : IO Unit := 
         r := r1
         let p := blk ++ blk ++ blk ++ blk.take (L / 2 + 1)
         emit (caseOf "rt" { shape := 3 + fs % 3, chain := [⟨'F', 2 + fs % 2, fs, 0, 0⟩], eol := fs % 4, payload := p })
+  -- 4c. dynamic-Huffman / mixed-block plans written by Spec/DeflateDyn.lean: every seed class (108 header styles x
+  --     5 block-type patterns x 7 block sizes x the factorisation classes of 4b, scrambled over the seeds) x payloads
+  --     {empty, one byte, short text-like, all 256 byte values, self-similar with period L, a run}: every literal
+  --     symbol, every length and distance symbol used in some case, one-symbol and empty distance alphabets, codes of
+  --     15 and 7 bits, HLIT / HDIST / HCLEN at their minima and maxima, all three run-length symbols
+  for ds in List.range (if thorough then 540 else 108) do
+    let L := ([1, 2, 5, 48, 300, 1500] : List Nat)[ds % 6]?.getD 5
+    let (blk, r1) := Rng.bytes L r
+    r := r1
+    let p : Bytes := match ds % 9 with
+      | 0 => []
+      | 1 => [UInt8.ofNat ds]
+      | 2 => (List.range 256).map UInt8.ofNat ++ blk
+      | 3 => List.replicate (3 * L + 7) (UInt8.ofNat ds)
+      | 4 => (List.range (40 + L)).map fun i => UInt8.ofNat (97 + (i * i + ds) % 7)
+      | _ => blk ++ blk ++ blk ++ blk.take (L / 2 + 1)
+    emit (caseOf "rt" { shape := 3 + ds % 3, chain := [⟨'F', 4, ds, 0, 0⟩], eol := ds % 4, payload := p })
+  if thorough then
+    for ds in List.range 24 do
+      let L := ([5000, 24577, 32768] : List Nat)[ds % 3]?.getD 5000
+      let (blk, r1) := Rng.bytes L r
+      r := r1
+      emit (caseOf "rt" { shape := 3, chain := [⟨'F', 4, 7 * ds + 3, 0, 0⟩], eol := ds % 4,
+                          payload := blk ++ blk ++ blk ++ blk.take (L / 2 + 1) })
   -- 5. random recipes
   for _ in List.range n do
     let (clen, r1) := r.nat 4
@@ -778,7 +845,7 @@ def gen (seed n : Nat) (tier : String) (emit : String → IO Unit) : IO Unit := 
     let (sel, r11) := r10.nat 4096
     let (pr, r12) := r11.pick ([2, 10, 11, 12, 13, 14] : List Nat)
     let (mask, r13) := r12.nat 16
-    let (mode, r14) := r13.nat 4
+    let (mode, r14) := r13.nat 5
     r := r14
     let ch := if pk == 0 then ch.take pos ++ [⟨'P', mode, sel % 50, pr + 16 * sel, mask⟩] ++ ch.drop pos else ch
     let shape := if ch.length == 1 && sh == 0 then 0 else if sh == 1 && pvs == 0 && pk != 0 then 1 else 2
